@@ -26,7 +26,7 @@ ANCHORS = {"matrix_functions.py": ["matrix_eigenvectors", "_compute_orthogonal_i
 
 C = 64.0
 SPECTRA = ["distinct", "clustered", "repeated", "rank_deficient", "geometric"]
-STRUCTURES = ["dense", "dense", "dense", "dense", "diagonal_unflagged", "permuted_diagonal", "block_diagonal", "identity_multiple", "zero"]
+STRUCTURES = ["dense", "dense", "dense", "dense", "diagonal_unflagged", "permuted_diagonal", "block_diagonal", "identity_multiple", "zero", "zero_rows"]
 ESTIMATES = ["zero", "exact_sorted", "exact_unsorted", "haar", "rotated", "identity", "permutation", "block_orthogonal"]
 
 
@@ -59,18 +59,20 @@ def _spectrum(kind, n, gen, torch):
 
 def _check_eigh_like(torch, Q, Ad, n, u, desc, counters, what):
     D = torch.float64
+    if not bool(torch.isfinite(Q).all()):
+        raise Violation(f"{what}: basis has NaN/Inf entries for a finite symmetric input", **desc)
     Qd = Q.to(D)
     nA = float(torch.linalg.matrix_norm(Ad, 2)) if n > 1 else float(Ad.abs().max())
     ro = float((Qd.T @ Qd - torch.eye(n, dtype=D)).norm()) / (C * n * u)
     counters["max_ratio_orth"] = max(counters["max_ratio_orth"], ro)
-    if ro > 1:
+    if not ro <= 1:
         raise Violation(f"{what}: basis not orthonormal, ||Q^T Q - I|| = {ro * C * n * u:.3g}", **desc)
     T = Qd.T @ Ad @ Qd
     off = T - torch.diag(torch.diagonal(T))
     if nA > 0:
         rd = float(off.norm()) / (C * n * u * nA)
         counters["max_ratio_diag"] = max(counters["max_ratio_diag"], rd)
-        if rd > 1:
+        if not rd <= 1:
             raise Violation(f"{what}: Q^T A Q is not diagonal, off-diagonal norm {float(off.norm()):.3g} (||A|| = {nA:.3g})", **desc)
     d = torch.diagonal(T)
     if n > 1 and float((d[:-1] - d[1:]).max()) > C * n * u * max(nA, 1e-300):
@@ -98,9 +100,12 @@ def run_case(case):
         r0 = rnd.random()
         n = 1 if r0 < 0.04 else (rnd.randint(2, 12) if r0 < 0.75 else rnd.choice([16, 24, 32, 48, 64]))
         kind = rnd.choice(SPECTRA)
+        forced_fp = case["method"] == "qr" and inst % 6 == 5 and n >= 2  # dedicated fixed-point instances
+        if forced_fp:
+            kind = rnd.choice(["distinct", "geometric"])
         scale = rnd.choice([1e-4, 1.0, 1.0, 1e3])
         lam = _spectrum(kind, n, gen, torch) * scale
-        structure = rnd.choice(STRUCTURES)
+        structure = "dense" if forced_fp else rnd.choice(STRUCTURES)
         if structure == "dense":
             Qt = matref.haar(n, gen)
         elif structure == "diagonal_unflagged":  # exactly diagonal, unsorted diagonal, is_diagonal NOT set
@@ -110,6 +115,11 @@ def run_case(case):
         elif structure == "block_diagonal":
             k = max(1, n // 2)
             Qt = torch.block_diag(matref.haar(k, gen), matref.haar(n - k, gen)) if n - k > 0 else matref.haar(n, gen)
+        elif structure == "zero_rows":
+            # Gram matrix of a gradient with all-zero rows: some coordinates are exactly zero rows/columns of A
+            k = max(1, n // 2)
+            Qt = torch.block_diag(matref.haar(k, gen), torch.eye(n - k, dtype=D)) if n - k > 0 else matref.haar(n, gen)
+            lam = torch.cat([torch.linspace(0.2, 1.0, k, dtype=D) * scale / scale, torch.zeros(n - k, dtype=D)])
         elif structure == "identity_multiple":
             Qt = matref.haar(n, gen)
             lam = torch.full((n,), float(lam.max()), dtype=D)
@@ -150,6 +160,8 @@ def run_case(case):
         # ---- QR method
         est_kind = rnd.choice(ESTIMATES)
         K = rnd.choice([1, 1, 1, 2, 3, 5, 8, 20, 50])
+        if forced_fp:
+            est_kind, K = rnd.choice(["exact_sorted", "exact_unsorted"]), rnd.choice([1, 1, 2])
         tol = rnd.choice([0.0, 1e-8, 1e-5, 1e-2, 1.0])
         desc.update(estimate=est_kind, max_iterations=K, tolerance=tol)
         evA, VA = torch.linalg.eigh(Ad)  # exact eigenbasis of the input actually passed
@@ -175,6 +187,8 @@ def run_case(case):
         out = mf.matrix_eigenvectors(A, eigenvectors_estimate=Q0t, eigenvector_computation_config=QRConfig(max_iterations=K, tolerance=tol))
         if tuple(out.shape) != (n, n):
             raise Violation(f"QR method returned shape {tuple(out.shape)}", **desc)
+        if not bool(torch.isfinite(out).all()):
+            raise Violation("QR method returned a basis with NaN/Inf entries for a finite symmetric PSD input", **desc)
         if est_kind == "zero":
             _check_eigh_like(torch, out, Ad, n, u, desc, counters, "QR method with zero estimate (eigendecomposition fallback)")
             counters["zero_estimate_fallback"] += 1
@@ -183,7 +197,7 @@ def run_case(case):
         outd = out.to(D)
         ro = float((outd.T @ outd - torch.eye(n, dtype=D)).norm()) / (C * n * u)
         counters["max_ratio_orth"] = max(counters["max_ratio_orth"], ro)
-        if ro > 1:
+        if not ro <= 1:
             raise Violation(f"QR method: basis not orthonormal, ||Q^T Q - I|| = {ro * C * n * u:.3g}", **desc)
         nA = float(torch.linalg.matrix_norm(Ad, 2))
         rq = torch.einsum("ij,ik,kj->j", outd, Ad, outd)
@@ -229,7 +243,7 @@ def run_case(case):
 
 
 def conclusive(agg, results, tier):
-    need = {"eigh_checked": 100, "qr_matched": 100, "qr_backward_checked": 30, "qr_nonvacuous_clusters": 300, "fixed_point_checked": 10, "zero_estimate_fallback": 20, "diag_flag": 5, "scalar": 3}
+    need = {"eigh_checked": 100, "qr_matched": 100, "qr_backward_checked": 30, "qr_nonvacuous_clusters": 300, "fixed_point_checked": 8, "zero_estimate_fallback": 20, "diag_flag": 5, "scalar": 3}
     low = {k: agg.get(k, 0) for k, v in need.items() if agg.get(k, 0) < v}
     if low:
         return f"too few observations: {low}"
